@@ -31,6 +31,7 @@ typedef struct {
   int port, mode, poison, single;
   const unsigned char *s; int n;
   const int *seg; int nseg;
+  int probe;                    /* console: after the stream, an empty line and then "ok" are typed */
 } plan_t;
 typedef struct {
   unsigned char u[LOGMAX]; int ulen, ucount;
@@ -47,7 +48,7 @@ static int MT;                  /* logical MAX_TEXT of the comm.c under test */
 static int selftest;
 static plan_t *P; static result_t *R;
 static env_cli *C;
-static int ph, segi, idle, fed_all;
+static int ph, segi, idle, fed_all, probe_step;
 static size_t arrived;
 static object_t *user_ob;
 static long n_runs, n_reads;
@@ -210,7 +211,7 @@ static int wait_hook (io_event_t *ev, int max, struct timeval *tmo) {
     user_ob = ip->ob;
     poison_ip (ip);
     if (P->port != PT_CONSOLE) env_client_send (C, P->s, (size_t) P->n);
-    arrived = 0; segi = 0; idle = 0; fed_all = 0;
+    arrived = 0; segi = 0; idle = 0; fed_all = 0; probe_step = 0;
     ph = 2;
     /* fall through */
   case 2:
@@ -238,6 +239,13 @@ static int wait_hook (io_event_t *ev, int max, struct timeval *tmo) {
     if (P->port == PT_CONSOLE && env_posted_completions && R->cycles < 200000) { env_posted_completions = 0; return env_ev_console (ev, 0); }
     if ((ip->iflags & CMD_IN_BUF) && idle < P->n + 8) { idle++; return 0; }
     if (ip->iflags & CMD_IN_BUF) failp ("C13:command-flag-stuck", "CMD_IN_BUF still set after %d idle cycles", idle);
+    if (P->port == PT_CONSOLE && P->probe && probe_step < 2) {
+      /* the stream has been handled and every complete command executed: now the operator presses Enter, then types a short line */
+      static const char *probe_chunk[2] = { "\n", "ok\n" };
+      async_queue_enqueue (g_console_queue, probe_chunk[probe_step], strlen (probe_chunk[probe_step]) + 1);
+      probe_step++; idle = 0;
+      return env_ev_console (ev, 0);
+    }
     harvest ();
     if (P->port == PT_CONSOLE) { env_shutdown (); ph = 9; return 0; }
     env_client_close (C);
@@ -368,7 +376,7 @@ static void elem_short (long idx) {
   /* indeterminate memory must not be observable */
   p.poison = 0x5A;
   run (&p, &ref2);
-  if (!single && (!same_u (&ref, &ref2) || !same_g (&ref, &ref2)))
+  if (!single && port != PT_CONSOLE && (!same_u (&ref, &ref2) || !same_g (&ref, &ref2)))
     failp ("C13:uninitialised-memory-observable", "what the user object receives depends on the initial content of the (never initialised) buffers: with 0xA5 %s %s, with 0x5A %s %s",
            show_log (ref.u, ref.ulen), show_log (ref.g, ref.glen), show_log (ref2.u, ref2.ulen), show_log (ref2.g, ref2.glen));
   p.poison = 0xA5;
@@ -383,7 +391,7 @@ static void elem_short (long idx) {
       static plan_t q; q = (plan_t) { port, mode, 0xA5, single, s, n, seg, ns };
       run (&q, &got);
       vx_count (4, 1);
-      if (single) continue;                             /* single-char mode: safety only */
+      if (single || port == PT_CONSOLE) continue;       /* single-char mode, console: memory safety and buffer invariants only */
       if (got.dropped && !ref.dropped) failp ("C13:connection-dropped", "driver closed the connection while processing the stream");
       int same = same_u (&ref, &got);
       if (port == PT_BINARY) {      /* one buffer per read is the documented interface: the byte sequence is what must not change */
@@ -400,7 +408,7 @@ static void elem_short (long idx) {
       }
     }
   }
-  if (single) return;
+  if (single || port == PT_CONSOLE) return;
   P = &p;
   /* (ii) explicit clauses */
   unsigned char isd[16], D[16], F[64]; int nd, nf = flat (&ref, F);
@@ -499,6 +507,17 @@ static int lines_of (result_t *r, const unsigned char **ptr, int *len, int max) 
   return k;
 }
 
+/* The statement's first sentence (lines depend only on the bytes) is about the telnet and ASCII ports.  For the console only the
+ * second one applies: no memory errors (sanitizer, canary), bounded buffering (buffer invariants, checked at every step), over-long
+ * lines are cut or discarded -- i.e. they do not stay in the way: once everything has been handled, an empty line and then a
+ * short line typed by the operator must get through -- and the console user survives. */
+static void console_verdict (int k, const unsigned char **lp, int *ll, const char *what, int n) {
+  if (got.dropped) { failp ("C13:console:user-removed-by-input", "%s %d: the console user was removed", what, n); return; }
+  if (k == 0 || ll[k - 1] != 2 || memcmp (lp[k - 1], "ok", 2))
+    failp ("C13:console:input-stuck-after-over-long-line", "%s %d: afterwards the operator types an empty line and then \"ok\": \"ok\" is not delivered (last delivered: %s)",
+           what, n, k ? show_log (got.u + (got.ulen > 60 ? got.ulen - 60 : 0), 0) : "nothing");
+}
+
 static void elem_long (long idx) {
   n_seen = 0;
   safe_apply_master_ob ("clear_mlog", 0);
@@ -514,12 +533,13 @@ static void elem_long (long idx) {
     int mode = mode_order[mi];
     if (chunk >= tot && mode == M_DRAIN) continue;
     if (port == PT_CONSOLE && chunk > CONSOLE_MAX_LINE - 1) { ns = make_seg (tot, CONSOLE_MAX_LINE - 1); }
-    static plan_t q; q = (plan_t) { port, mode, 0xA5, 0, big, tot, segbuf, ns };
+    static plan_t q; q = (plan_t) { port, mode, 0xA5, 0, big, tot, segbuf, ns, port == PT_CONSOLE };
     run (&q, &got);
     vx_count (4, 1);
     if (got.ucount) vx_count (3, 1);
     if (vx_replaying ()) vx_obs ("n=%d chunk=%d %s -> %s", n, chunk, mode_name[mode], show_log (got.u, got.ulen));
     const unsigned char *lp[64]; int ll[64]; int k = lines_of (&got, lp, ll, 64);
+    if (port == PT_CONSOLE) { console_verdict (k, lp, ll, "long line", n); continue; }
     if (got.dropped) { failm ("C13:connection-dropped-by-long-line", "line of %d bytes: the driver closed the connection instead of cutting or discarding the line", n); continue; }
     /* (iv) every delivered line but the last is a cut of the long line; the last is the short line, intact */
     if (k == 0 || ll[k - 1] != 2 || memcmp (lp[k - 1], "ok", 2)) {
@@ -567,11 +587,12 @@ static void elem_lines (long idx) {
   for (int mi = 0; mi < 3; mi++) {
     int mode = mode_order[mi];
     if (chunk >= tot && mode == M_DRAIN) continue;
-    static plan_t q; q = (plan_t) { port, mode, 0xA5, 0, big, tot, segbuf, ns };
+    static plan_t q; q = (plan_t) { port, mode, 0xA5, 0, big, tot, segbuf, ns, port == PT_CONSOLE };
     run (&q, &got);
     vx_count (4, 1);
     if (got.ucount) vx_count (3, 1);
     if (vx_replaying ()) vx_obs ("k=%d m=%d chunk=%d %s -> %d lines", k, m, chunk, mode_name[mode], got.ucount);
+    if (port == PT_CONSOLE) { const unsigned char *lp[4096]; static int ll[4096]; int kk = lines_of (&got, lp, ll, 4096); console_verdict (kk, lp, ll, "burst of short lines, bytes", tot); continue; }
     if (got.dropped) { failm ("C13:connection-dropped-by-burst", "%d lines of %d characters: the driver closed the connection", k, m); continue; }
     /* expected log */
     int o = 0, bad = -1, gi = 0, pos = 0;
